@@ -437,11 +437,15 @@ def run_impl(case):
     forward = case["forward"]
     saw = []
 
-    def make_wrapper(below, top, forwards):
+    lower_saw = []       # what the wrappers of entered lower levels received (partial forwarding only)
+
+    def make_wrapper(below, top, forwards, entered=False):
         if is_async:
             async def wrapper(*args, **kwargs):
                 if top:
                     saw.append((args, dict(kwargs)))
+                elif entered:
+                    lower_saw.append((args, dict(kwargs)))
                 if forwards:
                     return await below(*args, **kwargs)
                 return None
@@ -449,10 +453,15 @@ def run_impl(case):
             def wrapper(*args, **kwargs):
                 if top:
                     saw.append((args, dict(kwargs)))
+                elif entered:
+                    lower_saw.append((args, dict(kwargs)))
                 if forwards:
                     return below(*args, **kwargs)
                 return None
         return wrapper
+
+    def enc_call(a, k):
+        return {"pos": [vtok(x) for x in a], "kw": [[NAME_TOK[n], vtok(x)] for n, x in k.items()]}
 
     def do_call(fn, c, coro):
         pos = [_VALS[t] for t in c["pos"]]
@@ -479,7 +488,8 @@ def run_impl(case):
     for i, st in enumerate(case["steps"]):
         injected, expected, kw = _step_args(st, funcutils)
         # every wrapper forwards (plain stacks), or only those of the top `partial` levels
-        wrapper = make_wrapper(cur, i == nsteps - 1, forward or i >= nsteps - case.get("partial", 0))
+        wrapper = make_wrapper(cur, i == nsteps - 1, forward or i >= nsteps - case.get("partial", 0),
+                               entered=not forward and i >= nsteps - 1 - case.get("partial", 0))
         fids[id(wrapper)] = WRAPPER_ID + i
         try:
             if st["entry"] == "update_wrapper":
@@ -511,9 +521,11 @@ def run_impl(case):
     except (ValueError, SyntaxError):
         obs["again"] = None
     calls = []
+    lowers = []
     if fail is None:
         for c in case["calls"]:
             del saw[:]
+            del lower_saw[:]
             r = do_call(cur, c, is_async)
             assert len(saw) <= 1
             sw = None
@@ -528,7 +540,9 @@ def run_impl(case):
                 assert r is None
                 out = []
             calls.append({"saw": sw, "out": out})
+            lowers.append([enc_call(a, k) for a, k in lower_saw])
     obs["top_calls"] = calls
+    obs["lower_saws"] = lowers
     return obs
 
 
@@ -599,14 +613,15 @@ def to_coq(case, obs):
     levels = clist("(mkBO %s %s %s %s %s %s)" % (_sig(b["sig"]), cnat(b["name"]), _on(b["doc"]), _on(b["module"]),
                                                   _nv(b["dict"]), cbool(b["async"])) for b in obs["levels"])
     fail = "None" if obs["fail"] is None else "(Some %s)" % EXN[obs["fail"]]
-    return "mkCase %s %s %s %s %s %s %s %s %s %s %s %s %s %s" % (
+    return "mkCase %s %s %s %s %s %s %s %s %s %s %s %s %s %s %s" % (
         _pyfunc(case["f"]), clist(_step(st) for st in case["steps"]), cbool(case["forward"]), cnat(case.get("partial", 0)),
         clist(_call(c) for c in case["calls"]),
         _sig(obs["fsig"]), cbool(obs["fasync"]), clist(_rb(r) for r in obs["direct"]),
         _sig(obs["fsig_after"]), _nv(obs["fdict_after"]),
         "None" if obs["again"] is None else "(Some %s)" % _sig(obs["again"]), levels, fail,
         clist(cpair("None" if c["saw"] is None else "(Some %s)" % _call(c["saw"]), _rb(c["out"]))
-              for c in obs["top_calls"]))
+              for c in obs["top_calls"]),
+        clist(clist(_call(x) for x in l) for l in obs["lower_saws"]))
 
 
 # ---- generation -----------------------------------------------------------------------------
